@@ -185,6 +185,32 @@ Proof.
     eapply textend_impl; [|exact T]. rewrite (ci_name _ HI). intros e. eapply tile_ev_quiet; eauto.
 Qed.
 
+(* a security report is among the events added *)
+Definition has_sec (s s' : state) : Prop :=
+  exists evs, s_tr s' = s_tr s ++ evs /\ Exists is_sec evs.
+
+Lemma has_sec_intro P s s1 s' e :
+  textend P s s1 -> s_tr s' = s_tr s1 ++ [e] -> is_sec e -> has_sec s s'.
+Proof.
+  intros (e1 & H1 & _) H2 He. exists (e1 ++ [e]). split.
+  - rewrite H2, H1, app_assoc. reflexivity.
+  - apply Exists_app. right. constructor. exact He.
+Qed.
+
+Lemma has_sec_l P s s1 s' : textend P s s1 -> has_sec s1 s' -> has_sec s s'.
+Proof.
+  intros (e1 & H1 & _) (e2 & H2 & He). exists (e1 ++ e2). split.
+  - rewrite H2, H1, app_assoc. reflexivity.
+  - apply Exists_app. right. exact He.
+Qed.
+
+Lemma has_sec_r P s s1 s' : has_sec s s1 -> textend P s1 s' -> has_sec s s'.
+Proof.
+  intros (e1 & H1 & He) (e2 & H2 & _). exists (e1 ++ e2). split.
+  - rewrite H2, H1, app_assoc. reflexivity.
+  - apply Exists_app. left. exact He.
+Qed.
+
 Lemma textend_quiet_nocfg s s' : textend ev_quiet s s' -> textend ev_nocfg s s'.
 Proof. apply textend_impl. intros e []; auto. Qed.
 
@@ -196,7 +222,7 @@ Lemma check_trees_spec older on newer nn s r s' :
   tframe s s' /\
   textend (fun e => ev_nocfg e /\ (is_sec e -> sec_ev on nn e)) s s' /\
   (r = None -> Consistent older newer) /\
-  (r = Some ESecurity -> exists e, In e (s_tr s') /\ sec_ev on nn e) /\
+  (r = Some ESecurity -> has_sec s s') /\
   (r <> Some ESecurity -> textend ev_quiet s s').
 Proof.
   intros HI Hn HN Htr Hon Hnn H. unfold check_trees in H.
@@ -224,8 +250,307 @@ Proof.
       * eapply textend_impl; [|exact T1]. intros e [Hq Hns]. split; [exact Hq | tauto].
       * eapply textend_one; [exact T2|]. split; [|intros _; exact Hsec].
         split; [|exact I]. cbn. exists on, nn, h, pf. auto.
-    + intros _. exists (EvSecurity (security_msg on nn h pf)). split; [|exact Hsec].
-      rewrite T2. apply in_or_app. right. left. reflexivity.
+    + intros _. eapply has_sec_intro; [|exact T2|exact I].
+      eapply textend_trans; [exact T | exact T1].
+Qed.
+
+(* ---- mergeLatestMem ---------------------------------------------------------------------------- *)
+
+(* what merging heads never changes *)
+Record mframe (s s' : state) : Prop := mkMframe {
+  mf_init : c_init (s_c s') = c_init (s_c s);
+  mf_name : c_name (s_c s') = c_name (s_c s);
+  mf_vs : c_verifiers (s_c s') = c_verifiers (s_c s);
+  mf_records : c_records (s_c s') = c_records (s_c s);
+  mf_height : c_height (s_c s') = c_height (s_c s);
+  mf_remote : w_remote (s_w s') = w_remote (s_w s)
+}.
+
+Lemma mframe_refl s : mframe s s.
+Proof. constructor; reflexivity. Qed.
+
+Lemma mframe_trans s1 s2 s3 : mframe s1 s2 -> mframe s2 s3 -> mframe s1 s3.
+Proof. intros [] []. constructor; congruence. Qed.
+
+Lemma tframe_mframe s s' : tframe s s' -> mframe s s'.
+Proof. intros []. constructor; auto. Qed.
+
+Definition same_head (s s' : state) : Prop :=
+  c_latest (s_c s') = c_latest (s_c s) /\ c_latest_msg (s_c s') = c_latest_msg (s_c s).
+
+Definition same_config (s s' : state) : Prop :=
+  w_config (s_w s') = w_config (s_w s) /\ w_interf (s_w s') = w_interf (s_w s).
+
+Lemma tframe_same_head s s' : tframe s s' -> same_head s s'.
+Proof. intros []. split; auto. Qed.
+
+Lemma tframe_same_config s s' : tframe s s' -> same_config s s'.
+Proof. intros []. split; auto. Qed.
+
+(* the relation between a merged message and the head it was merged into *)
+Definition merged (w : when) (msg : str) (old_head new_head : tree) (new_msg : str) : Prop :=
+  match w with
+  | MsgFuture => msg <> [] /\ new_msg = msg /\ signed_tree msg new_head /\
+                 Codec.tN old_head < Codec.tN new_head /\ Consistent old_head new_head
+  | MsgPast => new_head = old_head /\ 0 < Codec.tN old_head /\
+               (msg = [] \/ exists t, signed_tree msg t /\ Codec.tN t < Codec.tN old_head /\ Consistent t old_head)
+  | MsgNow => new_head = old_head /\
+              (msg = [] \/ exists t, signed_tree msg t /\ Codec.tN t = Codec.tN old_head /\ Consistent t old_head)
+  end.
+
+Lemma install_inv tr m s u s' :
+  install tr m s = (u, s') ->
+  s' = mkState (s_w s)
+               (mkClient (c_init (s_c s)) (c_name (s_c s)) (c_verifiers (s_c s)) tr m
+                         (c_records (s_c s)) (c_tiles (s_c s)) (c_tile_saved (s_c s)) (c_height (s_c s)))
+               (s_tr s).
+Proof. unfold install, bindM, get_client, set_client. intros [= _ <-]. reflexivity. Qed.
+
+Lemma merge_latest_mem_spec msg s r s' :
+  CInv (s_c s) ->
+  merge_latest_mem node_hash V msg s = (r, s') ->
+  CInv (s_c s') /\ mframe s s' /\ same_config s s' /\ textend ev_nocfg s s' /\
+  match r with
+  | inr e => same_head s s' /\ (e = ESecurity -> has_sec s s') /\ (e <> ESecurity -> textend ev_quiet s s')
+  | inl w => textend ev_quiet s s' /\
+             merged w msg (c_latest (s_c s)) (c_latest (s_c s')) (c_latest_msg (s_c s')) /\
+             (w <> MsgFuture -> same_head s s')
+  end.
+Proof.
+  intros HI H. unfold merge_latest_mem in H.
+  minv H. unfold get_client in E. inversion E; subst a s0; clear E.
+  assert (Hrefl : CInv (s_c s) /\ mframe s s /\ same_config s s /\ textend ev_nocfg s s).
+  { split; [exact HI|]. split; [apply mframe_refl|]. split; [split; reflexivity | apply textend_refl]. }
+  assert (Hsame : same_head s s) by (split; reflexivity).
+  destruct msg as [|b msg'].
+  { apply ret_inv in H as [-> ->]. destruct Hrefl as (R1 & R2 & R3 & R4).
+    split; [exact R1|]. split; [exact R2|]. split; [exact R3|]. split; [exact R4|]. split; [apply textend_refl|]. split; [|intros _; exact Hsame].
+    assert (Hr0 := head_ok_range _ _ (ci_head _ HI)).
+    destruct (Codec.tN (c_latest (s_c s)) =? 0) eqn:H0; cbn; auto.
+    apply Z.eqb_neq in H0. split; [reflexivity|]. split; [lia | auto]. }
+  set (msg := b :: msg') in *.
+  rewrite (ci_vs _ HI) in H.
+  destruct (Note.open str V msg vs) as [n|e] eqn:Hopen.
+  2: { apply ret_inv in H as [-> ->]. destruct Hrefl as (R1 & R2 & R3 & R4).
+       split; [exact R1|]. split; [exact R2|]. split; [exact R3|]. split; [exact R4|]. split; [exact Hsame|]. split; [discriminate | intros _; apply textend_refl]. }
+  destruct (parse_tree (n_text n)) as [tr|k|] eqn:Hparse.
+  2,3: apply ret_inv in H as [-> ->]; destruct Hrefl as (R1 & R2 & R3 & R4);
+       (split; [exact R1|]); (split; [exact R2|]); (split; [exact R3|]); (split; [exact R4|]); (split; [exact Hsame|]); (split; [discriminate | intros _; apply textend_refl]).
+  assert (Hsig : signed_tree msg tr) by (exists n; auto).
+  assert (Htr := signed_range _ _ Hsig).
+  assert (Hlat := head_ok_range _ _ (ci_head _ HI)).
+  assert (Hnote : note_ok (c_latest_msg (s_c s))) by (eapply head_ok_note; apply (ci_head _ HI)).
+  assert (Htrust : trusted (c_latest_msg (s_c s)) (c_latest (s_c s))).
+  { destruct (ci_head _ HI) as [[_ H0]|Hs]; [left; exact H0 | right; exact Hs]. }
+  destruct (Codec.tN tr <=? Codec.tN (c_latest (s_c s))) eqn:Hle.
+  - apply Z.leb_le in Hle.
+    minv H.
+    assert (P1 : 0 <= Codec.tN tr <= Codec.tN (c_latest (s_c s))) by lia.
+    assert (P2 : Codec.tN (c_latest (s_c s)) < 2 ^ 62) by lia.
+    assert (P3 : note_ok msg) by (right; eauto).
+    destruct (check_trees_spec _ _ _ _ _ _ _ HI P1 P2 Htrust P3 Hnote E) as (F & T & Hnone & Hsec & Hq).
+    assert (Tn : textend ev_nocfg s s0) by (eapply textend_impl; [|exact T]; intros e []; auto).
+    destruct a as [err|].
+    + apply ret_inv in H as [-> ->].
+      split; [eapply tframe_cinv; eauto|]. split; [apply tframe_mframe; exact F|].
+      split; [apply tframe_same_config; exact F|]. split; [exact Tn|].
+      split; [apply tframe_same_head; exact F|]. split.
+      * intros ->. apply Hsec. reflexivity.
+      * intros Hne. apply Hq. congruence.
+    + apply ret_inv in H as [-> ->].
+      split; [eapply tframe_cinv; eauto|]. split; [apply tframe_mframe; exact F|].
+      split; [apply tframe_same_config; exact F|]. split; [exact Tn|].
+      split; [apply Hq; discriminate|]. split; [|intros _; apply tframe_same_head; exact F].
+      destruct (Codec.tN tr <? Codec.tN (c_latest (s_c s))) eqn:Hlt; cbn.
+      * split; [apply (tf_latest _ _ F)|]. apply Z.ltb_lt in Hlt. split; [lia|]. right. exists tr. auto.
+      * split; [apply (tf_latest _ _ F)|]. right. exists tr. apply Z.ltb_ge in Hlt.
+        split; [exact Hsig|]. split; [lia | auto].
+  - apply Z.leb_gt in Hle.
+    minv H.
+    assert (P1 : 0 <= Codec.tN (c_latest (s_c s)) <= Codec.tN tr) by lia.
+    assert (P2 : Codec.tN tr < 2 ^ 62) by lia.
+    assert (P3 : note_ok msg) by (right; eauto).
+    assert (P4 : trusted msg tr) by (right; exact Hsig).
+    destruct (check_trees_spec _ _ _ _ _ _ _ HI P1 P2 P4 Hnote P3 E) as (F & T & Hnone & Hsec & Hq).
+    assert (Tn : textend ev_nocfg s s0) by (eapply textend_impl; [|exact T]; intros e []; auto).
+    destruct a as [err|].
+    + apply ret_inv in H as [-> ->].
+      split; [eapply tframe_cinv; eauto|]. split; [apply tframe_mframe; exact F|].
+      split; [apply tframe_same_config; exact F|]. split; [exact Tn|].
+      split; [apply tframe_same_head; exact F|]. split.
+      * intros ->. apply Hsec. reflexivity.
+      * intros Hne. apply Hq. congruence.
+    + minv H. apply install_inv in E0. subst s1.
+      apply ret_inv in H as [-> ->]. cbn [s_c s_w s_tr].
+      assert (HI0 := tframe_cinv _ _ F HI).
+      split.
+      { destruct HI0. constructor; cbn; auto. right. exact Hsig. }
+      split; [constructor; cbn; apply F|].
+      split; [split; cbn; apply F|].
+      split; [destruct Tn as (evs & ? & ?); exists evs; cbn; auto|].
+      split; [destruct (Hq ltac:(discriminate)) as (evs & ? & ?); exists evs; cbn; auto|].
+      split; [|congruence].
+      cbn. split; [discriminate|]. split; [reflexivity|]. split; [exact Hsig|]. split; [lia|].
+      apply Hnone. reflexivity.
+Qed.
+
+(* the errors mergeLatestMem can produce *)
+Lemma check_trees_errs older on newer nn s e s' :
+  check_trees node_hash older on newer nn s = (Some e, s') -> e = EPanicC \/ e = ETiles \/ e = ESecurity.
+Proof.
+  unfold check_trees. intros H. minv H. destruct a as [h|k|].
+  - destruct (str_eqb h (Codec.tH older)).
+    + apply ret_inv in H as [[=] _].
+    + minv H. minv H. apply ret_inv in H as [[= <-] _]. auto.
+  - apply ret_inv in H as [[= <-] _]. auto.
+  - apply ret_inv in H as [[= <-] _]. auto.
+Qed.
+
+Lemma merge_latest_mem_errs msg s e s' :
+  merge_latest_mem node_hash V msg s = (inr e, s') -> e <> EFuelC.
+Proof.
+  unfold merge_latest_mem. intros H. minv H. destruct msg as [|b m].
+  { apply ret_inv in H as [[=] _]. }
+  destruct (Note.open str V (b :: m) (c_verifiers a)).
+  2: { apply ret_inv in H as [[= <-] _]. discriminate. }
+  destruct (parse_tree (n_text a0)).
+  2,3: apply ret_inv in H as [[= <-] _]; discriminate.
+  destruct (_ <=? _).
+  - minv H. destruct a2 as [err|].
+    + apply ret_inv in H as [[= <-] _]. apply check_trees_errs in E0. intuition congruence.
+    + apply ret_inv in H as [[=] _].
+  - minv H. destruct a2 as [err|].
+    + apply ret_inv in H as [[= <-] _]. apply check_trees_errs in E0. intuition congruence.
+    + minv H. apply ret_inv in H as [[=] _].
+Qed.
+
+(* ---- the configuration file ------------------------------------------------------------------ *)
+
+Lemma read_config_spec f s r s' :
+  read_config f s = (r, s') ->
+  tframe s s' /\ textend ev_quiet s s' /\ r = assoc f (w_config (s_w s)).
+Proof.
+  unfold read_config, bindM, get_world, emit, ret; cbn. intros [= <- <-].
+  split; [constructor; reflexivity|]. split; [|reflexivity].
+  eapply textend_one; [reflexivity|]. split; [split; exact I | intros []].
+Qed.
+
+Lemma write_config_spec f old new s ok s' :
+  write_config f old new s = (ok, s') ->
+  s_c s' = s_c s /\ w_remote (s_w s') = w_remote (s_w s) /\
+  s_tr s' = s_tr s ++ [EvWriteConfig f old new ok] /\
+  w_interf (s_w s') = List.tl (w_interf (s_w s)) /\
+  (ok = false -> exists x r, w_interf (s_w s) = Some x :: r \/ assoc f (w_config (s_w s)) <> Some old /\ (old <> [] \/ assoc f (w_config (s_w s)) <> None)).
+Proof.
+  unfold write_config, bindM, get_world, set_world, emit, ret; cbn. intros [= <- <-]. cbn.
+  repeat (split; [reflexivity|]).
+  intros Hok. destruct (w_interf (s_w s)) as [|[x|] r].
+  - exists [], []. right. destruct (assoc f (w_config (s_w s))) as [d|] eqn:Ha.
+    + split; [|right; discriminate]. intros [= ->]. rewrite str_eqb_refl in Hok. discriminate.
+    + split; [discriminate|]. left. intros ->. discriminate.
+  - exists x, r. left. reflexivity.
+  - exists [], []. right. destruct (assoc f (w_config (s_w s))) as [d|] eqn:Ha.
+    + split; [|right; discriminate]. intros [= ->]. rewrite str_eqb_refl in Hok. discriminate.
+    + split; [discriminate|]. left. intros ->. discriminate.
+Qed.
+
+(* ---- mergeLatest ----------------------------------------------------------------------------------- *)
+
+Definition safe_step (s s' : state) (r : option cerr) : Prop :=
+  CInv (s_c s') /\ mframe s s' /\ textend ev_safe s s' /\
+  (r = Some ESecurity -> has_sec s s').
+
+Lemma textend_nocfg_safe s s' : textend ev_nocfg s s' -> textend ev_safe s s'.
+Proof. apply textend_impl. apply ev_nocfg_safe. Qed.
+
+Lemma textend_quiet_safe s s' : textend ev_quiet s s' -> textend ev_safe s s'.
+Proof. apply textend_impl. intros e [[] _]. auto. Qed.
+
+Lemma merge_loop_spec fuel : forall s r s',
+  CInv (s_c s) ->
+  merge_loop node_hash V fuel s = (r, s') ->
+  safe_step s s' r /\ (length (w_interf (s_w s)) < fuel -> r <> Some EFuelC)%nat.
+Proof.
+  induction fuel as [|f IH]; intros s r s' HI H.
+  - cbn in H. apply ret_inv in H as [-> ->]. split; [|intros Hl; inversion Hl].
+    split; [exact HI|]. split; [apply mframe_refl|]. split; [apply textend_refl | discriminate].
+  - cbn [merge_loop] in H. minv H. unfold get_client in E. inversion E; subst a s0; clear E.
+    minv H. apply read_config_spec in E as (F0 & T0 & Hcfg).
+    assert (HI0 := tframe_cinv _ _ F0 HI).
+    destruct a as [msg|].
+    2: { apply ret_inv in H as [-> ->]. split; [|discriminate].
+         split; [exact HI0|]. split; [apply tframe_mframe; exact F0|].
+         split; [apply textend_quiet_safe; exact T0 | discriminate]. }
+    minv H. assert (Herr := E). apply merge_latest_mem_spec in E as (HI1 & F1 & C1 & T1 & Hr); [|exact HI0].
+    assert (Fm : mframe s s1) by (eapply mframe_trans; [apply tframe_mframe; exact F0 | exact F1]).
+    assert (Tm : textend ev_safe s s1).
+    { eapply textend_trans; [apply textend_quiet_safe; exact T0 | apply textend_nocfg_safe; exact T1]. }
+    destruct a as [w|e].
+    2: { apply ret_inv in H as [-> ->]. destruct Hr as (_ & Hsec & _).
+         split; [|intros _ [= ->]; eapply merge_latest_mem_errs; eauto].
+         split; [exact HI1|]. split; [exact Fm|]. split; [exact Tm|].
+         intros [= ->]. eapply has_sec_l; [exact T0 | apply Hsec; reflexivity]. }
+    destruct Hr as (Tq & Hm & Hsame).
+    destruct w.
+    2,3: apply ret_inv in H as [-> ->]; (split; [|discriminate]);
+         (split; [exact HI1|]); (split; [exact Fm|]); (split; [exact Tm | discriminate]).
+    (* msg is in the past: write our head over it *)
+    minv H. unfold get_client in E. inversion E; subst a s2; clear E.
+    minv H. apply write_config_spec in E as (Hc & Hrem & Htr & Hint & Hfail).
+    cbn in Hm. destruct Hm as (Hhead & Hpos & Hpast).
+    assert (Hsame' := Hsame ltac:(discriminate)). destruct Hsame' as [_ Hmsg].
+    assert (Hsigned : signed_tree (c_latest_msg (s_c s1)) (c_latest (s_c s1))).
+    { destruct (ci_head _ HI1) as [[_ H0]|Hs]; [|exact Hs]. rewrite Hhead in H0. lia. }
+    assert (Hev : ev_safe (EvWriteConfig (latest_file (c_name (s_c s1))) msg (c_latest_msg (s_c s1)) a)).
+    { cbn. split; [rewrite (ci_name _ HI1); reflexivity|].
+      exists (c_latest (s_c s1)). split; [exact Hsigned|].
+      destruct Hpast as [->|(t & Ht & Hlt & Hcons)]; [left; reflexivity|].
+      right. exists t. rewrite Hhead. auto. }
+    assert (HI2 : CInv (s_c s2)) by (rewrite Hc; exact HI1).
+    assert (F2 : mframe s s2).
+    { eapply mframe_trans; [exact Fm|]. constructor; try (rewrite Hc; reflexivity). exact Hrem. }
+    assert (T2 : textend ev_safe s s2).
+    { eapply textend_trans; [exact Tm|]. eapply textend_one; [exact Htr | exact Hev]. }
+    destruct a.
+    + apply ret_inv in H as [-> ->]. split; [|discriminate].
+      split; [exact HI2|]. split; [exact F2|]. split; [exact T2 | discriminate].
+    + apply IH in H as ((HI3 & F3 & T3 & Hsec3) & Hfuel); [|exact HI2].
+      split.
+      * split; [exact HI3|]. split; [eapply mframe_trans; eauto|].
+        split; [eapply textend_trans; eauto|].
+        intros Hr. eapply has_sec_l; [exact T2 | apply Hsec3; exact Hr].
+      * intros Hlen. apply Hfuel.
+        (* the failed compare-and-swap consumed an interference *)
+        destruct C1 as [Ccfg Cint]. rewrite Hint, Cint, (tf_interf _ _ F0).
+        destruct (Hfail eq_refl) as (x & rr & [Hi|[Hne Hold]]).
+        -- rewrite (tf_interf _ _ F0) in *. rewrite Cint in Hi. rewrite (tf_interf _ _ F0) in Hi.
+           rewrite Hi in *. cbn in *. lia.
+        -- exfalso. rewrite Ccfg, (tf_config _ _ F0) in Hne.
+           rewrite (tf_name _ _ F1) in Hne. rewrite (tf_name _ _ F0) in Hne.
+           apply Hne. symmetry. exact Hcfg.
+Qed.
+
+Lemma merge_latest_spec msg s r s' :
+  CInv (s_c s) ->
+  merge_latest node_hash V msg s = (r, s') ->
+  safe_step s s' r /\ r <> Some EFuelC.
+Proof.
+  intros HI H. unfold merge_latest in H.
+  minv H. assert (Herr := E). apply merge_latest_mem_spec in E as (HI1 & F1 & C1 & T1 & Hr); [|exact HI].
+  destruct a as [w|e].
+  2: { apply ret_inv in H as [-> ->]. destruct Hr as (_ & Hsec & _).
+       split; [|intros [= ->]; eapply merge_latest_mem_errs; eauto].
+       split; [exact HI1|]. split; [exact F1|]. split; [apply textend_nocfg_safe; exact T1|].
+       intros [= ->]. apply Hsec. reflexivity. }
+  destruct w.
+  1,2: apply ret_inv in H as [-> ->]; (split; [|discriminate]);
+       (split; [exact HI1|]); (split; [exact F1|]); (split; [apply textend_nocfg_safe; exact T1 | discriminate]).
+  minv H. unfold get_world in E. inversion E; subst a s1; clear E.
+  apply merge_loop_spec in H as ((HI2 & F2 & T2 & Hsec2) & Hfuel); [|exact HI1].
+  split; [|apply Hfuel; lia].
+  split; [exact HI2|]. split; [eapply mframe_trans; eauto|].
+  split; [eapply textend_trans; [apply textend_nocfg_safe; exact T1 | exact T2]|].
+  intros Hs. eapply has_sec_l; [exact T1 | apply Hsec2; exact Hs].
 Qed.
 
 End Safe.
